@@ -40,6 +40,9 @@ def obligations(tier):
            "stix2.markings.granular_markings.remove_markings", "stix2.markings.granular_markings.clear_markings"],
            bounds="11 object-level/granular marking operations x 8 clock offsets x 4 old modified values x object/dict x 2.0/2.1 x revoked or not, on a Malware that "
                   "already carries object and granular markings"),
+        CH("custom_content_is_versionable", H, "custom_content_versions", t, mode="E1s", functions=F + ["stix2.base._STIXBase.__init__"],
+           bounds="5 ways of carrying custom content (keyword, custom_properties, false-y only, parsed, embedded only) x 6 operations (new_version, revoke, removal of a "
+                  "custom property, adding one, chain, after a marking operation) x 2.0/2.1"),
         CH("every_versionable_class", H, "real_objects", t * 2, mode="E1s", functions=F,
            bounds="every versionable class of both versions (live registry) x object/dict x 8 clock offsets x 4 old instants; new_version then revoke"),
         JOB("modified_precision_wiring", "props.j_tables", "job_modified_precision", 120, engine="smt",
